@@ -1,4 +1,10 @@
 // Command vh is the conformance harness: it replays what TLC prints into the real code.
+//
+// Modules (one per TLA+ specification) register themselves in init() functions of mod_*.go:
+//
+//	modules["fscore"] = func(adapter string, o *Opts) engine.Adapter
+//
+// Extra sub-commands register in commands.
 package main
 
 import (
@@ -8,38 +14,31 @@ import (
 	"os"
 	"strings"
 
-	"github.com/hack-pad/hackpadfs"
 	"verif/harness/engine"
-	"verif/harness/fsad"
 )
 
-// attr maps divergence classes to property ids, e.g. "state:C01,err:C05,wf:C03,list:C16"
-var attr = map[string]string{"state": "C01", "err": "C05", "wf": "C03", "list": "C16"}
-
-func parseAttr(s string) {
-	for _, kv := range strings.Split(s, ",") {
-		if i := strings.IndexByte(kv, ':'); i > 0 {
-			attr[kv[:i]] = kv[i+1:]
-		}
-	}
+// Opts are the module-independent options an adapter constructor may use.
+type Opts struct {
+	Names []string          // element names of the model
+	Depth int               // closure depth of the projection
+	Attr  map[string]string // divergence class -> property id
+	Seed  int64
+	Extra string // free-form module option (--opt)
 }
 
-func fsAdapter(kind string, names []string, depth int) engine.Adapter {
-	cfg := fsad.Config{AdapterName: kind, PropState: attr["state"], PropErr: attr["err"], PropWF: attr["wf"], PropList: attr["list"], Names: names, Depth: depth}
-	switch kind {
-	case "mem":
-		cfg.MkFS = fsad.MemFS
-	case "kvplain":
-		cfg.MkFS = fsad.KVPlainFS
-	case "osref":
-		cfg.MkFS = fsad.OSRefFS
-		cfg.Reference = true
-		cfg.PropState, cfg.PropErr, cfg.PropWF, cfg.PropList = "SPEC", "SPEC", "SPEC", "SPEC"
-	default:
-		fmt.Fprintln(os.Stderr, "unknown adapter", kind)
-		os.Exit(2)
+func (o *Opts) attr(class, def string) string {
+	if v, ok := o.Attr[class]; ok {
+		return v
 	}
-	return &fsad.Adapter{Cfg: cfg}
+	return def
+}
+
+var modules = map[string]func(adapter string, o *Opts) engine.Adapter{}
+var commands = map[string]func(args []string){}
+
+func fatal(a ...any) {
+	fmt.Fprintln(os.Stderr, a...)
+	os.Exit(2)
 }
 
 type replayFile struct {
@@ -55,88 +54,64 @@ type replayFile struct {
 	Expected string   `json:"expected"`
 }
 
-func mkfs(kind string) func() (hackpadfs.FS, func(), error) {
-	switch kind {
-	case "mem":
-		return fsad.MemFS
-	case "kvplain":
-		return fsad.KVPlainFS
-	case "osref":
-		return fsad.OSRefFS
-	}
-	fmt.Fprintln(os.Stderr, "unknown fs kind", kind)
-	os.Exit(2)
-	return nil
+type commonFlags struct {
+	names, attr, extra *string
+	depth              *int
+	seed               *int64
 }
 
-func handlesAdapter(kind string) engine.Adapter {
-	cfg := fsad.HConfig{AdapterName: kind, PropIO: "C02", PropClosed: "C17", MkFS: mkfs(kind)}
-	if kind == "osref" {
-		cfg.Reference = true
-		cfg.PropIO, cfg.PropClosed = "SPEC", "SPEC"
+func addCommon(fl *flag.FlagSet) *commonFlags {
+	return &commonFlags{
+		names: fl.String("names", "a,b", "element names of the model"),
+		depth: fl.Int("depth", 3, "closure depth of the projection"),
+		attr:  fl.String("attr", "", "attribution of divergence classes to properties, e.g. state:C01,err:C05"),
+		extra: fl.String("opt", "", "module-specific option"),
+		seed:  fl.Int64("seed", 1, "seed"),
 	}
-	return &fsad.HAdapter{Cfg: cfg}
 }
 
-func dirhAdapter(kind string) engine.Adapter {
-	cfg := fsad.DConfig{AdapterName: kind, PropList: "C16", PropClosed: "C17", PropIO: "C02"}
-	switch kind {
-	case "mem", "kvplain", "osref":
-		cfg.MkDirFS = fsad.Writable(mkfs(kind))
-	default:
-		fmt.Fprintln(os.Stderr, "unknown dirh adapter", kind)
-		os.Exit(2)
+func (c *commonFlags) opts() *Opts {
+	o := &Opts{Names: strings.Split(*c.names, ","), Depth: *c.depth, Attr: map[string]string{}, Seed: *c.seed, Extra: *c.extra}
+	for _, kv := range strings.Split(*c.attr, ",") {
+		if i := strings.IndexByte(kv, ':'); i > 0 {
+			o.Attr[kv[:i]] = kv[i+1:]
+		}
 	}
-	if kind == "osref" {
-		cfg.Reference = true
-		cfg.PropList, cfg.PropClosed, cfg.PropIO = "SPEC", "SPEC", "SPEC"
-	}
-	return &fsad.DAdapter{Cfg: cfg}
+	return o
 }
 
-func adaptersFor(module, adapter, names string, depth int) []engine.Adapter {
+func adaptersFor(module, adapter string, o *Opts) []engine.Adapter {
+	mk, ok := modules[module]
+	if !ok {
+		fatal("unknown module", module)
+	}
 	var ads []engine.Adapter
 	for _, a := range strings.Split(adapter, ",") {
-		switch module {
-		case "fscore":
-			ads = append(ads, fsAdapter(a, strings.Split(names, ","), depth))
-		case "handles":
-			ads = append(ads, handlesAdapter(a))
-		case "dirh":
-			ads = append(ads, dirhAdapter(a))
-		default:
-			fmt.Fprintln(os.Stderr, "unknown module", module)
-			os.Exit(2)
-		}
+		ads = append(ads, mk(a, o))
 	}
 	return ads
 }
 
 func main() {
 	if len(os.Args) < 2 {
-		fmt.Fprintln(os.Stderr, "usage: vh replay-graph ...")
-		os.Exit(2)
+		fatal("usage: vh replay-graph|replay-file|... (see DESIGN.md)")
 	}
 	switch os.Args[1] {
 	case "replay-graph":
 		fl := flag.NewFlagSet("replay-graph", flag.ExitOnError)
 		module := fl.String("module", "fscore", "specification module the stream comes from")
-		adapter := fl.String("adapter", "mem", "real-code adapter")
-		names := fl.String("names", "a,b", "element names of the model")
-		depth := fl.Int("depth", 3, "closure depth of the projection")
+		adapter := fl.String("adapter", "mem", "real-code adapters, comma separated")
 		workers := fl.Int("workers", 16, "replay workers")
 		sample := fl.Float64("sample", 1, "fraction of states whose transitions are replayed")
-		seed := fl.Int64("seed", 1, "seed")
 		maxStates := fl.Int64("max-states", 0, "stop after N states")
 		out := fl.String("out", "", "write the JSON summary here (default stdout)")
-		at := fl.String("attr", "", "attribution of divergence classes to properties")
+		cf := addCommon(fl)
 		_ = fl.Parse(os.Args[2:])
-		parseAttr(*at)
-		ads := adaptersFor(*module, *adapter, *names, *depth)
-		sum, err := engine.Run(os.Stdin, *module, ads, engine.Options{Workers: *workers, Sample: *sample, Seed: *seed, MaxStates: *maxStates, OutFile: *out})
+		o := cf.opts()
+		ads := adaptersFor(*module, *adapter, o)
+		sum, err := engine.Run(os.Stdin, *module, ads, engine.Options{Workers: *workers, Sample: *sample, Seed: o.Seed, MaxStates: *maxStates, OutFile: *out})
 		if err != nil {
-			fmt.Fprintln(os.Stderr, err)
-			os.Exit(2)
+			fatal(err)
 		}
 		b, _ := json.MarshalIndent(sum, "", " ")
 		if *out != "" {
@@ -150,25 +125,19 @@ func main() {
 		_ = fl.Parse(os.Args[2:])
 		b, err := os.ReadFile(*file)
 		if err != nil {
-			fmt.Fprintln(os.Stderr, err)
-			os.Exit(2)
+			fatal(err)
 		}
 		var rf replayFile
 		if err := json.Unmarshal(b, &rf); err != nil {
-			fmt.Fprintln(os.Stderr, err)
-			os.Exit(2)
+			fatal(err)
 		}
 		fl2 := flag.NewFlagSet("args", flag.ContinueOnError)
-		names := fl2.String("names", "a,b", "")
-		depth := fl2.Int("depth", 3, "")
-		at := fl2.String("attr", "", "")
+		cf := addCommon(fl2)
 		_ = fl2.Parse(rf.VhArgs)
-		parseAttr(*at)
-		ad := adaptersFor(rf.Module, rf.Adapter, *names, *depth)[0]
+		ad := adaptersFor(rf.Module, rf.Adapter, cf.opts())[0]
 		obs, divs, err := engine.ReplayOne(ad, rf.Init, rf.State, rf.History, rf.Call, rf.Expected)
 		if err != nil {
-			fmt.Fprintln(os.Stderr, err)
-			os.Exit(2)
+			fatal(err)
 		}
 		fmt.Printf("history : %d calls\ncall    : %s\nexpected: %s\nobserved: %v\n", len(rf.History), rf.Call, rf.Expected, obs)
 		hit := false
@@ -184,7 +153,10 @@ func main() {
 		}
 		fmt.Println("not reproduced")
 	default:
-		fmt.Fprintln(os.Stderr, "unknown command", os.Args[1])
-		os.Exit(2)
+		if c, ok := commands[os.Args[1]]; ok {
+			c(os.Args[2:])
+			return
+		}
+		fatal("unknown command", os.Args[1])
 	}
 }
